@@ -169,7 +169,7 @@ class ArgMutated(Exception):
 
 def snapshot(v, depth=0):
     if isinstance(v, np.ndarray):
-        return ('nd', v.dtype.str, v.shape, v.strides, v.tobytes())
+        return ('nd', v.dtype.str, v.shape, v.strides, v.tobytes(), bool(v.flags.writeable))
     if isinstance(v, (list, tuple)) and depth < 4:
         return ('seq', type(v).__name__, tuple(snapshot(x, depth + 1) for x in v))
     if isinstance(v, dict):
@@ -243,6 +243,8 @@ def _how(b, a):
     if b[0] == 'nd' and a[0] == 'nd':
         if b[1:4] != a[1:4]:
             return 'dtype/shape/strides changed'
+        if b[5:] != a[5:]:
+            return 'writeable flag changed'
         return 'array contents changed'
     return 'sequence contents changed'
 
